@@ -1053,6 +1053,183 @@ fn lossy_twins(seed: u64, shard: u64, n: u64) -> Tally {
     t
 }
 
+/// What an earlier, refused request may leave behind. On one thread, back to back: an accepted parent whose signed content
+/// has `X‖Y` at a site (first query name, a query value, the first path segment, the first folded form name); a request that
+/// is refused early and carries `X` followed by something malformed at the same kind of site (a broken percent escape, an
+/// undecodable body byte); then the child — the parent with `Y` alone at the site — under the parent's signature. The child
+/// differs from the parent in signed content, whatever was validated before it.
+fn after_refusal(seed: u64, shard: u64, n: u64) -> Tally {
+    let mut t = Tally::new();
+    for i in 0..n {
+        let mut r = Rng::keyed(seed, "C01", "after-refusal", shard, i);
+        let mut cfg0 = gen_cfg(&mut r);
+        let mut site = r.below(4);
+        if site == 3 {
+            cfg0.s3 = false;
+            cfg0.fold = true;
+        }
+        let o = GenOpts {
+            other_carrier_decoys: false,
+            carrier: if site <= 1 || site == 3 {
+                Some(Carrier::Header)
+            } else {
+                None
+            },
+            ..Default::default()
+        };
+        let l = gen_logical(&mut r, &cfg0, &o);
+        if site == 3 && l.form_pairs.is_none() {
+            site = 0;
+        }
+        let (nx, ny) = (2 + r.usize_below(5), 1 + r.usize_below(4));
+        let x = format!("p{}", r.string_from("abcxyz019", nx));
+        let y = format!("q{}", r.string_from("abcxyz019", ny));
+        let xy = format!("{}{}", x, y);
+        let single = r.coin();
+        let place = |l: &Logical, m: &str| -> Logical {
+            let mut l2 = l.clone();
+            let m = m.as_bytes().to_vec();
+            match site {
+                0 | 1 => {
+                    if single || l2.url_pairs.is_empty() {
+                        l2.url_pairs = vec![(b"k".to_vec(), b"v".to_vec())];
+                    }
+                    if site == 0 {
+                        l2.url_pairs[0].0 = m;
+                    } else {
+                        l2.url_pairs[0].1 = m;
+                    }
+                }
+                2 => {
+                    if m.len() == xy.len() {
+                        l2.segs.insert(0, x.as_bytes().to_vec());
+                        if single {
+                            l2.segs.truncate(2);
+                        }
+                    } else if single {
+                        l2.segs.truncate(1);
+                    }
+                }
+                _ => {
+                    let fp = l2.form_pairs.as_mut().unwrap();
+                    if single || fp.is_empty() {
+                        *fp = vec![(b"k".to_vec(), b"v".to_vec())];
+                    }
+                    fp[0].0 = m;
+                }
+            }
+            l2
+        };
+        let site_name = ["query-name", "query-value", "path-segment", "form-name"][site as usize];
+        let lp = place(&l, &xy);
+        let lc = place(&l, &y);
+        let (pcase, pfacts) = {
+            let mut sr = Rng::keyed(seed, "C01", "after-refusal-spell", shard, i);
+            let mut sp = Speller {
+                r: &mut sr,
+                level: 0,
+            };
+            make_case(&lp, &cfg0, &mut sp, &Overrides::default(), gen_delta_ns(&mut r))
+        };
+        let prec = execute(&pcase);
+        t.eval();
+        if !prec.outcome.is_ok() {
+            t.count("after_refusal/parent_not_accepted");
+            continue;
+        }
+        // the refused request in between
+        let bad = *r.pick(&["%zz", "%z", "%", "%G0", "%0"]);
+        let mut pw = pcase.wire.clone();
+        match site {
+            0 => pw.uri = format!("/?{}{}", x, bad).into_bytes(),
+            1 => {
+                pw.uri = if r.coin() {
+                    format!("/?k={}{}", x, bad)
+                } else {
+                    format!("/?{}{}", x, bad)
+                }
+                .into_bytes()
+            }
+            2 => {
+                pw.uri = if r.coin() {
+                    format!("/{}/{}", x, bad)
+                } else {
+                    format!("/{}{}", x, bad)
+                }
+                .into_bytes()
+            }
+            _ => {
+                pw.body = x.clone().into_bytes();
+                if r.coin() {
+                    pw.body.extend_from_slice(bad.as_bytes());
+                } else {
+                    pw.body.extend_from_slice(&[0xff, 0xfe]);
+                }
+            }
+        }
+        let poison = Case {
+            wire: pw,
+            cfg: pcase.cfg.clone(),
+            script: pcase.script.clone(),
+        };
+        let qrec = execute(&poison);
+        t.eval();
+        match &qrec.outcome {
+            Outcome::NotBuilt(_) => {
+                t.count("after_refusal/refused_request_not_built_by_http");
+                continue;
+            }
+            o if o.is_ok() => {
+                if let Some(v) = judge(&poison, &qrec).and_then(|j| mon_shadow(&poison, &qrec, &j)) {
+                    t.violate(v);
+                }
+                continue;
+            }
+            _ => t.count(&format!("after_refusal/refused_in_between/{}", site_name)),
+        }
+        let ov = Overrides {
+            signature: Some(pfacts.sig.clone()),
+            ..Default::default()
+        };
+        let mut sr = Rng::keyed(seed, "C01", "after-refusal-spell", shard, i);
+        let mut sp = Speller {
+            r: &mut sr,
+            level: 0,
+        };
+        let (w, _) = crate::gen::render(&lc, &pcase.cfg, &mut sp, &ov);
+        let case = Case {
+            wire: w,
+            cfg: pcase.cfg.clone(),
+            script: pcase.script.clone(),
+        };
+        let rec = execute(&case);
+        t.eval();
+        if matches!(rec.outcome, Outcome::NotBuilt(_)) {
+            continue;
+        }
+        let shadow = judge(&case, &rec).and_then(|j| mon_shadow(&case, &rec, &j));
+        if let Some(mut v) = shadow {
+            v.signature = format!("{}|after-refusal|{}", v.signature, site_name);
+            v.detail = format!("after a refused request carrying {:?} then {:?} ({}): {}", x, bad, site_name, v.detail);
+            t.violate(v);
+        } else if rec.outcome.is_ok() {
+            t.violate(violation(
+                "metamorphic",
+                &format!("after-refusal|{}", site_name),
+                format!("an accepted request has {:?} as its {}; after a refused request carrying {:?} followed by a malformed escape / byte, the request with {:?} there instead is accepted under the same signature", xy, site_name, x, y),
+                &case,
+                None,
+            ));
+        } else if observed_stage(&rec) == Some(Stage::Signature) {
+            t.count(&format!("after_refusal/child_refused_at_comparison/{}", site_name));
+            t.nontrivial(case.hash());
+        } else {
+            t.count(&format!("after_refusal/child_refused_earlier/{}", site_name));
+        }
+    }
+    t
+}
+
 pub fn run(tier: Tier) -> i32 {
     let mut ctx = Ctx::new("C01", tier);
     let pre = preflight();
@@ -1065,11 +1242,16 @@ pub fn run(tier: Tier) -> i32 {
     tally.merge(pc);
     let tw = ctx.par(16, |s| lossy_twins(seed, s, tier.n(600, 40_000)));
     tally.merge(tw);
+    let ar = ctx.par(16, |s| after_refusal(seed, s, tier.n(250, 10_000)));
+    tally.merge(ar);
     if let Err(e) = &pre {
         tally.inconclusive.push(e.clone());
     }
     for site in ["header-value", "query-value", "query-name", "path-segment", "form-value"] {
         ctx.gate(&format!("twin pairs (lossy-decoding / normalisation collisions) in a {}: child refused at the signature comparison", site), tally.get(&format!("twin/refused_at_comparison/{}", site)), tier.n(if site == "form-value" { 60 } else { 600 }, if site == "form-value" { 4000 } else { 40_000 }));
+    }
+    for site in ["query-name", "query-value", "path-segment", "form-name"] {
+        ctx.gate(&format!("after a refused request that carries the missing prefix: child ({}) refused at the signature comparison", site), tally.get(&format!("after_refusal/child_refused_at_comparison/{}", site)), tier.n(if site == "form-name" { 100 } else { 400 }, if site == "form-name" { 4000 } else { 16_000 }));
     }
     ctx.gate("twin pairs seen refused (of 19)", tally.counters.keys().filter(|k| k.starts_with("twin/pair/")).count() as u64, 19);
     for car in ["hdr", "qry"] {
@@ -1093,7 +1275,7 @@ pub fn run(tier: Tier) -> i32 {
     ctx.exhaustive("signature positions 0-63 on each sig-position parent", true);
     let rep = Report {
         level: "exploration",
-        rule: "W-mutate: accepted W-sign parents (both carriers, all option sets, tokens) × one change each from a 43-entry catalogue (path/query/header/body/form pairs/method/timestamp incl. out-of-range aliases of the same instant and the same digits under another offset/secret/signature incl. decorated and non-hex/SignedHeaders list/Authorization grammar incl. one obs-text byte (NBSP, NEL, soft hyphen) at the edge of a parameter/carrier/server scope/token/raw URI byte), the child carrying the parent's signature; plus every signature position × wrong digits; plus 'twin' pairs — 18 pairs of byte strings that lossy UTF-8 decoding, Latin-1/UTF-8 confusion, Unicode normalisation, case folding or invisible-character handling map to one another — placed in a signed header value, a query name or value, a path segment or a folded form value (the nineteenth pair is one of spellings: a control byte escaped `%0X` in the parent, the same wire text with `%+X` in the child): the parent carries one member and is accepted, the child carries the other under the parent's signature. Oracles: shadow verifier (on every success the presented signature must equal the reference HMAC, under the key the provider returned in that execution, of the reference string-to-sign of the request as received) and a model-free metamorphic rule for changes that alter signed content by construction. Non-trivial = a child the reference model refuses at the signature stage and the library refused with the signature-mismatch class (i.e. the comparison itself was exercised); distinct by case hash.".into(),
+        rule: "W-mutate: accepted W-sign parents (both carriers, all option sets, tokens) × one change each from a 43-entry catalogue (path/query/header/body/form pairs/method/timestamp incl. out-of-range aliases of the same instant and the same digits under another offset/secret/signature incl. decorated and non-hex/SignedHeaders list/Authorization grammar incl. one obs-text byte (NBSP, NEL, soft hyphen) at the edge of a parameter/carrier/server scope/token/raw URI byte), the child carrying the parent's signature; plus every signature position × wrong digits; plus 'twin' pairs — 18 pairs of byte strings that lossy UTF-8 decoding, Latin-1/UTF-8 confusion, Unicode normalisation, case folding or invisible-character handling map to one another — placed in a signed header value, a query name or value, a path segment or a folded form value (the nineteenth pair is one of spellings: a control byte escaped `%0X` in the parent, the same wire text with `%+X` in the child): the parent carries one member and is accepted, the child carries the other under the parent's signature; plus 'after a refusal' triples run back to back on one thread — an accepted parent with X‖Y as its first query name, a query value, its first path segment or its first folded form name, then a request refused early that carries X followed by a broken percent escape or an undecodable byte at the same kind of site, then the child with Y alone there under the parent's signature. Oracles: shadow verifier (on every success the presented signature must equal the reference HMAC, under the key the provider returned in that execution, of the reference string-to-sign of the request as received) and a model-free metamorphic rule for changes that alter signed content by construction. Non-trivial = a child the reference model refuses at the signature stage and the library refused with the signature-mismatch class (i.e. the comparison itself was exercised); distinct by case hash.".into(),
         assumptions: vec![
             "HMAC-SHA256 unforgeability is assumed (cryptographic half of the statement)".into(),
             "reference model calibrated on the AWS vectors".into(),
